@@ -134,5 +134,3 @@ Definition queue_src_ok : bool :=
   && eqr (q_run "NewQueue" false)
          (Some ([QMakeBox; QInitBox0], Some "&Queue{ depthChan: depthChan, lock: &sync.RWMutex{}, }")).
 
-Lemma queue_src_ok_true : queue_src_ok = true.
-Proof. vm_compute. reflexivity. Qed.
